@@ -323,7 +323,12 @@ pub struct TlsConn {
 }
 
 /// run the real `Connector::connect` against the reference server behind real TLS
-pub fn tls_connect(cfg: &ConnCfg, mut p: ServerParams, devs: Vec<Deviation>, cert: Cert) -> Result<TlsConn, String> {
+pub fn tls_connect(cfg: &ConnCfg, p: ServerParams, devs: Vec<Deviation>, cert: Cert) -> Result<TlsConn, String> {
+    tls_connect_fragmented(cfg, p, devs, cert, crate::memlink::ReadPlan::All, crate::memlink::WritePlan::All)
+}
+
+/// same, with a transport that hands over / accepts bytes in pieces (end-to-end fragmentation under TLS)
+pub fn tls_connect_fragmented(cfg: &ConnCfg, mut p: ServerParams, devs: Vec<Deviation>, cert: Cert, rp: crate::memlink::ReadPlan, wp: crate::memlink::WritePlan) -> Result<TlsConn, String> {
     // the NTLM verifier needs the account the client will use
     p.acct_user = cfg.client.user.clone();
     p.acct_domain = cfg.client.domain.clone();
@@ -331,6 +336,12 @@ pub fn tls_connect(cfg: &ConnCfg, mut p: ServerParams, devs: Vec<Deviation>, cer
     let peer = Rc::new(RefCell::new(TlsPeer::new(p, devs, cert)?));
     let link = MemLink::with_peer(peer.clone());
     let sh = link.sh.clone();
+    {
+        let mut s = sh.borrow_mut();
+        s.read_plan = rp;
+        s.write_plan = wp;
+        s.spin_limit = 50_000_000;
+    }
     let r = connector(cfg).connect(link);
     let (client, error) = match r {
         Ok(c) => (Some(c), None),
